@@ -616,6 +616,7 @@ theorem transcribed_lock_code : Gen.LockTable.lockCode = [
     ("tensordict/base.py", "TensorDictBase._lock_parents_weakrefs", "getter", 8312859044969),
     ("tensordict/utils.py", "lock_blocked", "def", 105446566695188),
     ("tensordict/utils.py", "_lock_after_memmap", "def", 106074028361656),
+    ("tensordict/utils.py", "TensorDictFuture.result", "def", 99494762524330),
     ("tensordict/_lazy.py", "LazyStackedTensorDict.is_locked", "getter", 136072267606293),
     ("tensordict/_lazy.py", "LazyStackedTensorDict._lock_parents_weakrefs", "getter", 198575112916678),
     ("tensordict/_lazy.py", "LazyStackedTensorDict._propagate_lock", "def", 5793774695841),
